@@ -35,6 +35,7 @@ type scope struct {
 	// Serialises construction of scoped services per registration, so that
 	// concurrent resolutions in one scope run the constructor once
 	constructing   map[uint64]*sync.Mutex
+	constructed    map[uint64]struct{} // registrations whose constructor has run successfully in this scope
 	constructingMu sync.Mutex
 
 	// Track disposable scoped instances
@@ -391,6 +392,27 @@ func (s *scope) constructionLock(descriptor *Descriptor) *sync.Mutex {
 	return mu
 }
 
+// wasConstructed reports whether the constructor of the registration the
+// descriptor belongs to has run successfully in this scope.
+func (s *scope) wasConstructed(descriptor *Descriptor) bool {
+	s.constructingMu.Lock()
+	defer s.constructingMu.Unlock()
+
+	_, ok := s.constructed[descriptor.registration]
+	return ok
+}
+
+// markConstructed records a successful run of the registration's constructor.
+func (s *scope) markConstructed(descriptor *Descriptor) {
+	s.constructingMu.Lock()
+	defer s.constructingMu.Unlock()
+
+	if s.constructed == nil {
+		s.constructed = make(map[uint64]struct{}, 4)
+	}
+	s.constructed[descriptor.registration] = struct{}{}
+}
+
 // getInstance retrieves a cached instance from this scope in a thread-safe manner.
 // Returns the instance and true if found, or nil and false if not cached.
 func (s *scope) getInstance(key instanceKey) (any, bool) {
@@ -556,10 +578,27 @@ func (s *scope) resolveInstance(key instanceKey, descriptor *Descriptor) (any, e
 			return instance, nil
 		}
 
+		// The constructor behind this registration has already run in this
+		// scope and left this result nil. It is not run again: its other
+		// results are this scope's instances and stay so.
+		if s.wasConstructed(descriptor) {
+			// ... unless the miss is due to Close having emptied the cache
+			if atomic.LoadInt32(&s.disposed) != 0 {
+				return nil, ErrScopeDisposed
+			}
+			return nil, nil
+		}
+
 		// Create and cache scoped instance
 		instance, err := s.createInstance(descriptor)
 		if err != nil {
 			return nil, err
+		}
+
+		// A run that produced nothing at all (the only result is nil) has left
+		// nothing behind and may be retried like a failed construction.
+		if instance != nil || len(s.rootProvider.outputs[descriptor.registration]) > 1 {
+			s.markConstructed(descriptor)
 		}
 
 		return instance, nil
@@ -740,13 +779,9 @@ func (s *scope) createInstance(descriptor *Descriptor) (any, error) {
 			return nil, setErr
 		}
 
-		if primaryService == nil {
-			return nil, &ValidationError{
-				ServiceType: descriptor.Type,
-				Cause:       fmt.Errorf("result object produced no services"),
-			}
-		}
-
+		// The constructor ran and its other results have been stored. A nil
+		// requested field is reported by resolve like any other nil result,
+		// without making this run count as failed.
 		return primaryService, nil
 	}
 
